@@ -37,7 +37,7 @@ theorem import_export_roundtrip (k : Kymo) (hpx : k.px ≠ 0) (sample : Option (
     roundtrip k sample fmt g = .ok (g.map (reimported sample fmt (g.all (·.minDur.isSome)))) := by
   unfold roundtrip
   rw [exportRows_eq k sample fmt g hne]
-  exact importGroup_rowBlocks k hpx sample fmt _ g hpts
+  exact importGroup_rowBlocks k hpx sample fmt _ g hne hpts
 
 /-- … and it is the identity when the tracks already carry what the file stores: counts equal to the
     sampled ones (or no counts and no sampling) and minimum durations that the format represents
@@ -343,6 +343,56 @@ theorem filter_raises_minimum (lt : Rat) (L : Int) (D : Rat) (g : List Track) (t
   refine ⟨tr, htr, rfl, _, rfl, le_max_left _ _, ?_, ?_⟩
   · exact le_trans (le_max_left _ _) (le_max_right _ _)
   · exact le_trans (le_max_right _ _) (le_max_right _ _)
+
+theorem span_ge_length (p : Pt) (ps : List Pt) (h : StrictInc (p :: ps)) :
+    (ps.length : Int) ≤ ((p :: ps).getLast (by simp)).1 - p.1 := by
+  induction ps generalizing p with
+  | nil => simp
+  | cons q rest ih =>
+    have hpq : p.1 < q.1 := (List.pairwise_cons.1 h).1 q (by simp)
+    have := ih q (List.pairwise_cons.1 h).2
+    simp only [List.getLast_cons_cons, List.length_cons] at *
+    omega
+
+/-- **the raised minimum is a true lower bound**: every track that passes the filter (with strictly
+    increasing scan lines, positive line time) lasts at least `max((L−1)·line_time, ⌈D/line_time⌉·line_time)`,
+    the amount by which its minimum observable duration is raised. -/
+theorem filter_min_observable_sound (lt : Rat) (hlt : 0 < lt) (L : Int) (D : Rat) (tr : Track)
+    (hne : tr.pts ≠ []) (hs : StrictInc tr.pts) (hk : keepTrack lt L D tr = true) :
+    minObservable lt L D ≤ tr.duration lt := by
+  unfold keepTrack at hk
+  simp only [Bool.and_eq_true, decide_eq_true_eq] at hk
+  obtain ⟨hL, hD⟩ := hk
+  cases hp : tr.pts with
+  | nil => exact absurd hp hne
+  | cons p ps =>
+    rw [hp] at hs
+    have hspan := span_ge_length p ps hs
+    have hdur : tr.duration lt = lt * ((((p :: ps).getLast (by simp)).1 - p.1 : Int) : Rat) := by
+      unfold Track.duration
+      rw [hp]
+      simp only [List.head?_cons, Option.map_some, Option.getD_some, List.getLast?_eq_some_getLast (l := p :: ps) (by simp)]
+      push_cast
+      ring
+    rw [hdur] at hD ⊢
+    generalize hk' : (((p :: ps).getLast (by simp)).1 - p.1 : Int) = k at *
+    have hlen : (tr.len : Int) = ps.length + 1 := by simp [Track.len, hp]
+    unfold minObservable
+    apply max_le
+    · have h1 : L - 1 ≤ k := by omega
+      have h2 : ((L - 1 : Int) : Rat) ≤ (k : Rat) := by exact_mod_cast h1
+      calc ((L - 1 : Int) : Rat) * lt ≤ (k : Rat) * lt := by
+            exact mul_le_mul_of_nonneg_right h2 (le_of_lt hlt)
+        _ = lt * (k : Rat) := by ring
+    · have h1 : D / lt ≤ (k : Rat) := by
+        rw [div_le_iff₀ hlt]; linarith
+      have h2 : (D / lt).ceil ≤ k := Rat.ceil_le_iff.2 h1
+      have h3 : (((D / lt).ceil : Int) : Rat) ≤ (k : Rat) := by exact_mod_cast h2
+      calc (((D / lt).ceil : Int) : Rat) * lt ≤ (k : Rat) * lt := by
+            exact mul_le_mul_of_nonneg_right h3 (le_of_lt hlt)
+        _ = lt * (k : Rat) := by ring
+
+example : keepTrack (1 / 8) 3 (1 / 5) ⟨[(0, 1), (2, 2), (3, 3)], none, none⟩ = true := by decide +kernel
 
 example : filterTracks (1 / 8) 2 (1 / 5)
       [⟨[(0, 1), (1, 2)], none, none⟩, ⟨[(0, 1), (2, 2), (3, 3)], some (1 / 2), some [1, 2, 3]⟩, ⟨[(9, 1)], none, none⟩]
